@@ -1064,7 +1064,8 @@ struct LifecycleEngine : Engine
 		else
 			s += "close / cancel / destroy / move-then-destroy-source (object idle) on every live object, and 'the next user handler throws'. Oracle: no sanitizer report, assertion, signal or "
 				"foreign exception; handler discipline; bystanders complete intact; the exception leaves run() and everything is destroyed without further calls. ";
-		return s + "evaluations = base scenarios; sub_executions (in fault_and_reach_counters) = individual executions. distinct = distinct shape hash of (boundaries, operations, interventions); "
+		return s + "Operations are also started on closed, unopened or unconnected objects from inside handlers; boundaries at which the outstanding or live set changes are "
+			"enumerated first; after every execution the scenario's acceptor must still accept; both close() overloads are used. evaluations = base scenarios; sub_executions (in fault_and_reach_counters) = individual executions. distinct = distinct shape hash of (boundaries, operations, interventions); "
 			"non-trivial = at least 10 interventions over at least 3 (intervention, object kind) pairs";
 	}
 	int64_t budget(std::string const& prop, int tier) const override { return prop == "C04" ? (tier ? 6000 : 180) : (tier ? 3000 : 64); }
